@@ -296,20 +296,28 @@ Definition C05_dask_product_accepts_full : Prop :=
     str_nodup (map (name_of names) (map p_key en) ++ reserved_dims) = true ->
     observe_dask src_cfg Product ps slots table range <> None.
 
-(* It is false of the code: a value twice in a list makes pandas refuse the MultiIndex (finding
-   C05-dask-product-duplicates, open). *)
-Theorem C05_dask_product_accepts_refuted : ~ C05_dask_product_accepts_full.
+(* It is decided by what ProductMode.create_params does with a repeated value (read from the source):
+   true if the value lists are de-duplicated; false -- witness a = [1.0, 1.0]: pandas refuses the non-unique
+   MultiIndex, finding C05-dask-product-duplicates -- if they are not. *)
+Theorem C05_dask_product_accepts_decided :
+  if cf_dask_product_dedup src_cfg then C05_dask_product_accepts_full else ~ C05_dask_product_accepts_full.
 Proof.
-  intros H.
-  specialize (H [mkParam "pipeline.charge_collection.m1.arguments.a" (Lit [Sc 8; Sc 8]) true] [] [] None
-                [("pipeline.charge_collection.m1.arguments.a", "a")]
-                ltac:(repeat constructor; simpl; intuition) eq_refl eq_refl eq_refl).
-  apply H. reflexivity.
+  destruct (cf_dask_product_dedup src_cfg) eqn:E.
+  - intros ps slots table range names en Nk Hph Hn Hres.
+    destruct (dask_product_observe src_cfg ps slots table range names Nk Hph Hn
+                (dim_names_inj src_cfg _ names eq_refl eq_refl Nk Hn) Hres (or_introl E)) as (oc & H & _).
+    rewrite H. discriminate.
+  - intros H.
+    specialize (H [mkParam "pipeline.charge_collection.m1.arguments.a" (Lit [Sc 8; Sc 8]) true] [] [] None
+                  [("pipeline.charge_collection.m1.arguments.a", "a")]
+                  ltac:(repeat constructor; simpl; intuition) eq_refl eq_refl eq_refl).
+    apply H. apply dask_product_duplicates_witness. exact E.
 Qed.
-Print Assumptions C05_dask_product_accepts_refuted.
+Print Assumptions C05_dask_product_accepts_decided.
 
-(* What holds: without a repeated value the request is run, the executed runs are the requested ones, each
-   once, and every run is found under its value-labels with its own data. *)
+(* What holds either way: when no list repeats a value (or the lists are de-duplicated) the request is run,
+   exactly the requested runs are executed (never more executions than requested runs), and every run is
+   found under its value-labels with its own data. *)
 Theorem C05_dask_product_accepts_partial : forall ps slots table range names,
   let en := enabled ps in
   let keys := map p_key en in
@@ -317,9 +325,10 @@ Theorem C05_dask_product_accepts_partial : forall ps slots table range names,
   existsb has_ph en = false ->
   dim_names src_cfg keys = Some names ->
   str_nodup (map (name_of names) keys ++ reserved_dims) = true ->
-  forallb (fun s => pvals_nodup (snd s)) (dask_steps en) = true ->
+  cf_dask_product_dedup src_cfg = true \/ forallb (fun s => pvals_nodup (snd s)) (dask_steps en) = true ->
   exists oc, observe_dask src_cfg Product ps slots table range = Some oc /\
-    Permutation (oc_runs oc) (map (fun r => received slots (r_params r)) (spec_product en)) /\
+    (forall x, In x (oc_runs oc) <-> In x (map (fun r => received slots (r_params r)) (spec_product en))) /\
+    List.length (oc_runs oc) <= List.length (spec_product en) /\
     (forall r, In r (spec_product en) ->
        lookup (spec_label_dask Product names en (r_index r) (r_params r)) (oc_result oc)
        = Some (data_of slots (r_params r))) /\
@@ -341,23 +350,26 @@ Theorem C05_dask_custom_columns : forall en row,
 Proof. intros en row. exact (dask_custom_row_spec src_cfg en row eq_refl). Qed.
 Print Assumptions C05_dask_custom_columns.
 
-(* Sequential mode on the dask path.  Full statement: the cells are the requested runs. *)
+(* Sequential mode on the dask path.  Full statement: the rows of create_params are the requested runs. *)
 Definition C05_dask_sequential_full : Prop :=
-  forall get en, dask_sequential_cells (dask_steps en) = spec_sequential_params get en.
+  forall get ps, dask_seq_cells src_cfg get ps = spec_sequential_params get (enabled ps).
 
-(* False of the code (DESIGN F12, finding C05-dask-sequential-zips, open): the lists are zipped. *)
-Theorem C05_dask_sequential_refuted : ~ C05_dask_sequential_full.
+(* It is decided by how SequentialMode.create_params builds its rows (read from the source): true if they
+   come from get_parameters_item (one parameter at a time over the configured values); false -- witness
+   [1,2,3] x [10,12]: the lists are zipped, DESIGN F12, finding C05-dask-sequential-zips -- otherwise. *)
+Theorem C05_dask_sequential_decided :
+  if cf_dask_sequential_rows src_cfg then C05_dask_sequential_full else ~ C05_dask_sequential_full.
 Proof.
-  intros H.
-  specialize (H (fun _ => Sc 0) [mkParam "k.a" (Lit [Sc 8; Sc 16; Sc 24]) true; mkParam "k.b" (Lit [Sc 80; Sc 96]) true]).
-  vm_compute in H. discriminate.
+  destruct (cf_dask_sequential_rows src_cfg) eqn:E.
+  - intros get ps. apply dask_seq_cells_rows. exact E.
+  - intros H. exact (dask_seq_cells_zip_witness src_cfg E (H _ _)).
 Qed.
-Print Assumptions C05_dask_sequential_refuted.
+Print Assumptions C05_dask_sequential_decided.
 
-(* What holds: with one enabled parameter the cells are the requested runs, in order. *)
-Theorem C05_dask_sequential_partial : forall get p,
-  dask_sequential_cells (dask_steps [p]) = spec_sequential_params get [p].
-Proof. exact dask_sequential_one. Qed.
+(* What holds either way: with one enabled parameter the rows are the requested runs, in order. *)
+Theorem C05_dask_sequential_partial : forall get ps p,
+  enabled ps = [p] -> dask_seq_cells src_cfg get ps = spec_sequential_params get [p].
+Proof. exact (dask_seq_cells_one src_cfg). Qed.
 Print Assumptions C05_dask_sequential_partial.
 
 (* ------------------------------------------------------------------------------------ non-vacuity *)
@@ -399,8 +411,9 @@ Example ex_custom_accepts_and_slices :
   /\ custom_runs 5 [[1; 2; 3; 4; 5]]%Z ex_custom = None.
 Proof. vm_compute. auto. Qed.
 
-Example ex_src_cfg_is_repaired : src_cfg = cfg_repaired.
-Proof. reflexivity. Qed.
+(* the naming rule read from the source is the repaired one *)
+Example ex_src_cfg_names_repaired : cf_name_fallback_full src_cfg = true /\ cf_name_stage3 src_cfg = true.
+Proof. split; reflexivity. Qed.
 
 Example ex_dim_names_fallback_distinct :
   option_map (map snd) (dim_names cfg_repaired ["pipeline.charge_collection.m1.arguments.a";
